@@ -26,6 +26,7 @@ REQUIRED = [
     "DaeVerif.C04.Props.dedup_preserves_meaning",
     "DaeVerif.C04.Props.compiled_program_is_first_match",
     "DaeVerif.C04.Props.split_is_category_guard",
+    "DaeVerif.C04.Props.same_normal_form_same_meaning",
     "DaeVerif.C04.Props.merge_of_negated_neighbours_unsound",
     "DaeVerif.C04.Props.merge_needs_parameters_or_false_reading",
     "DaeVerif.C04.Props.ex_pipeline",
@@ -53,6 +54,25 @@ def analyse(ctx, name, agg):
     bad_lines = {ln for ln, _, _, _ in mism if ln > 0}
     if mism and mism[0][0] == 0:
         ctx.report(f"{name}: {mism[0][1]}", {"stream": name})
+    # A normalised AST that differs from the model's is tolerated when the two programs are equal up
+    # to value order / multiplicity and condition order (Props.same_normal_form_same_meaning): ask the
+    # driver.  Decisions (q lines) are still compared exactly.
+    cand = []
+    for ln in sorted(bad_lines):
+        im, mo = impl[ln - 1] if ln - 1 < len(impl) else "", model[ln - 1] if ln - 1 < len(model) else ""
+        if im.startswith("opt=") and mo.startswith("opt=") and " split=" in im and " split=" in mo:
+            ia, isp = im[4:].rsplit(" split=", 1)
+            ma, msp = mo[4:].rsplit(" split=", 1)
+            if isp == msp and ia != "err" and ma != "err":
+                cand.append((ln, ia, ma))
+    if cand:
+        nf_ops, nf_out = os.path.join(ctx.out, name + ".nf.ops"), os.path.join(ctx.out, name + ".nf.model")
+        open(nf_ops, "w").write("".join(f"N {a} | {b}\n" for _, a, b in cand))
+        if ctx.driver("c04drv", nf_ops, nf_out):
+            for (ln, _, _), ans in zip(cand, read_lines(nf_out)):
+                if ans == "nf=1":
+                    bad_lines.discard(ln)
+                    agg["benign_ast_drift"] += 1
     cur = None           # index of the current P line
     reported_prog = set()
     n = min(len(ops), len(impl), len(model), len(descr))
@@ -67,6 +87,11 @@ def analyse(ctx, name, agg):
             ctx.report(f"the parser accepts a form the model assumes it rejects: {d.get('text')}", {"stream": name, "line": i + 1, "descr": d})
             continue
         why = None
+        if d.get("kind") == "pipeline":
+            if (i + 1) in bad_lines:
+                ctx.report(f"the optimizer list at the {d.get('backend')} call site is {impl[i]} but the theorems are about {model[i]}",
+                           {"stream": name, "line": i + 1, "site": d.get("backend"), "impl": impl[i], "model": model[i]})
+            continue
         if (i + 1) in bad_lines:
             why = "implementation differs from the proved model"
         if ops[i].startswith("q "):
@@ -80,9 +105,11 @@ def analyse(ctx, name, agg):
                 why = "the compiled program decides differently from the rules as written"
         if why is None:
             continue
-        if cur in reported_prog and len(ctx.violations) >= 6:
+        agg["flagged_lines"] += 1
+        if (cur, why) in reported_prog or len(ctx.violations) >= 12:
             continue
-        reported_prog.add(cur)
+        reported_prog.add((cur, why))
+        agg["flagged_programs"].add((name, cur))
         pd = descr[cur] if cur is not None else {}
         tag = pd.get("tag", "")
         what = f"{why} [{pd.get('backend', name)}] rules: {' ; '.join(pd.get('text', []))} ; fallback: {pd.get('fallback')}"
@@ -91,7 +118,7 @@ def analyse(ctx, name, agg):
         else:
             what += f" | normalised by real code: {impl[i][:300]} | by model: {model[i][:300]}"
         if tag in known and known[tag].get("kind") == "fixed":
-            what = f"REGRESSION of fix {known[tag].get('commit')} ({tag}): " + what
+            what = f"[witness program of fix {known[tag].get('commit')} {tag}] " + what
         ctx.report(what, {
             "stream": name, "line": i + 1, "backend": pd.get("backend"), "tag": tag,
             "rules_as_written": pd.get("text"), "fallback": pd.get("fallback"), "input": d.get("pkt"),
@@ -126,7 +153,8 @@ def run(ctx):
         results = [f.result() for f in fh]
     ctx.required_theorems(REQUIRED)
 
-    agg = {"programs": 0, "programs_changed": 0, "evaluations": 0, "distinct": set(), "decisions": set()}
+    agg = {"programs": 0, "programs_changed": 0, "evaluations": 0, "distinct": set(), "decisions": set(),
+           "benign_ast_drift": 0, "flagged_lines": 0, "flagged_programs": set()}
     sample_ops, dist = [], {}
     for (name, pkg, hfile, test), res in zip(streams, results):
         if res is None:
@@ -148,6 +176,11 @@ def run(ctx):
     ctx.cov["programs"] = agg["programs"]
     ctx.cov["programs_changed_by_normalisation"] = agg["programs_changed"]
     ctx.cov["distinct_decisions_seen"] = len(agg["decisions"])
+    ctx.cov["ast_differs_but_same_normal_form"] = agg["benign_ast_drift"]
+    ctx.cov["flagged_lines"] = agg["flagged_lines"]
+    ctx.cov["flagged_programs"] = len(agg["flagged_programs"])
+    if agg["benign_ast_drift"]:
+        ctx.say(f"NOTE: {agg['benign_ast_drift']} normalised programs differ from the model's AST but have the same normal form (same meaning by theorem); not a violation")
     ctx.assumptions = [
         "rule lists, geodata and packets/questions are generated (seeded, neighbour-heavy runs of rules sharing function/alias twin, negation and outbound; repeated and overlapping values; mixed keys; near-miss outbounds); the witness programs of the four C04 fix commits are replayed first on every run",
     ]
